@@ -339,6 +339,8 @@ type Memory struct {
 
 	// sync lock (read: flush, write: sync)
 	syncMx sync.RWMutex
+	// writes tracks forked DB writes, so Sync can wait for them.
+	writes sync.WaitGroup
 	// nextId sequence ID
 	nextId atomic.Uint64
 	// garbage collector lock (read: query, write: GC)
@@ -619,6 +621,7 @@ func (m *Memory) Sync() error {
 	m.syncMx.Lock()
 	defer m.syncMx.Unlock()
 	m.writeDb(false)
+	m.writes.Wait()
 
 	m.log("sync OK")
 
@@ -719,7 +722,9 @@ func (m *Memory) writeDb(rLocked bool) {
 	m.SavePending.Add(-int32(l))
 
 	// fork
+	m.writes.Add(1)
 	go func() {
+		defer m.writes.Done()
 		if rLocked {
 			defer m.syncMx.RUnlock()
 		}
